@@ -20,6 +20,7 @@ from vz.gen import schema as M
 from vz.harness import load as H
 from vz.harness import pkgs
 from vz.ref import schemadoc as R
+from vz.ref import schemanames as N
 
 ITEM_TAGS = ("key", "multikey", "section", "multisection")
 CONTAINER_TAGS = ("schema", "sectiontype")
@@ -618,12 +619,18 @@ def judge_outcome(o, expect):
         return None if o[0] == "schema-error" else "rule-violation-not-reported-as-schema-error"
     if expect == "accept":
         return None if o[0] == "accepted" else "rule-abiding-document-refused"
+    if expect == "refuse":
+        return None if o[0] in ("schema-error", "other-config-error") else "rule-violation-not-refused-at-load-time"
+    if expect == "total-at-load":
+        return None if o[0] in ("accepted", "schema-error", "other-config-error") else "unspecified-region-not-total"
     return None if o[0] in ("accepted", "schema-error") else "unspecified-region-not-total"
 
 
 VERDICT_EXPECT = {"accept": "accept", "reject": "reject", "unspecified": "total"}
 EXPECT_TEXT = {"reject": "ZConfig.SchemaError from loadSchemaFile", "accept": "accepted",
-               "total": "accepted or ZConfig.SchemaError"}
+               "total": "accepted or ZConfig.SchemaError",
+               "refuse": "ZConfig.SchemaError (or another ConfigurationError) from loadSchemaFile",
+               "total-at-load": "accepted, or ZConfig.SchemaError / another ConfigurationError from loadSchemaFile"}
 
 
 def explore_nesting(name, xml, acc, tier, wrap=None):
@@ -751,7 +758,7 @@ def _render_cont(c):
     return r
 
 
-def ctx_document(conts, root_tag="schema"):
+def ctx_document(conts, root_tag="schema", schema_attrs="", leaf=True):
     """conts: list of (place, letter, keytype rendering or None, spec, extends-letter or None); place in
     'type' / 'top'.  At most one 'top' container (its key type is the schema's)."""
     ks = None
@@ -760,7 +767,8 @@ def ctx_document(conts, root_tag="schema"):
         if c[0] == "top":
             ks = c[2]
         body.append(_render_cont(c))
-    return '<%s%s>\n  <sectiontype name="zleaf"/>\n%s</%s>\n' % (root_tag, _kt_attr(ks), "".join(body), root_tag)
+    return '<%s%s%s>\n%s%s</%s>\n' % (root_tag, _kt_attr(ks), schema_attrs,
+                                     '  <sectiontype name="zleaf"/>\n' if leaf else "", "".join(body), root_tag)
 
 
 def ctx_judge(conts):
@@ -937,6 +945,332 @@ def _explore_ctx(acc, tier, lay, kts, hist_specs, b_specs, root_tag, load):
                           tags={"kind": "verdict-changes-between-two-loads", "axis": "container-context"})
 
 
+# ---------------------------------------------------------------------------
+# wave 3, axis S: the SPELLING of every name-bearing attribute.  For every slot of vz.ref.schemanames (element x
+# attribute: names of keys / multikeys / sections / multisections with and without an explicit attribute, key= of a
+# <default>, names of section types and abstract types, attribute, handler, required, datatype, keytype, type /
+# extends / implements references, prefix), in every container position (the schema's own items, a section type, a
+# derived section type that inherits its key type; thorough: also a component) and under every key type, the value
+# runs over ALL strings up to a length over an alphabet that contains white space of every kind, plus a well-formed
+# stem with every short string inserted at every position.  The verdict comes from the documented type of the
+# attribute (anchored patterns), not from the implementation.
+
+def spell_params(tier):
+    if tier == "quick":
+        return {"alphabet": N.ALPHABET_QUICK, "bare": 2, "ins": 1, "keytypes": (None, "identifier")}
+    return {"alphabet": N.ALPHABET_THOROUGH, "bare": 3, "ins": 2,
+            "keytypes": (None, "basic-key", "identifier", R.LOWER_KEY)}
+
+
+def spell_shards(tier):
+    P = spell_params(tier)
+    out = []
+    for slot, (_, _, _, kt_dependent) in N.SLOTS.items():
+        places = ("top",) if slot in N.PLACELESS else N.PLACES
+        for place in places:
+            for kt in (P["keytypes"] if kt_dependent else (None,)):
+                out.append(("spell", tier, slot, place, kt, "schema"))
+                if tier != "quick" and place != "top":
+                    out.append(("spell", tier, slot, place, kt, "component"))
+    return out
+
+
+def _position_class(v, i):
+    return "first" if i == 0 else "last" if i == len(v) - 1 else "middle"
+
+
+def explore_spelling(arg, acc):
+    _, tier, slot, place, kt, root_tag = arg
+    P = spell_params(tier)
+    render, judge, stem, _ = N.SLOTS[slot]
+    eff = kt or "basic-key"
+    Pk = None
+    load = observe
+    try:
+        if root_tag == "component":
+            Pk = pkgs.Packages()
+            real = Pk.add_component("spell", [])
+            path = os.path.join(Pk.dir, real, "component.xml")
+            schema = '<schema>\n  <import package="%s"/>\n</schema>\n' % real
+
+            def load(x):
+                with open(path, "w") as f:
+                    f.write(x.replace("<schema", "<component", 1).replace("</schema>", "</component>"))
+                return observe(schema)
+        for v in N.slot_values(slot, P["alphabet"], P["bare"], P["ins"]):
+            expect, clause = judge(v, eff)
+            if expect is None:
+                acc.extra["spell_not_generated:" + clause] += 1
+                continue
+            xml = render(v, kt, place)
+            acc.current = xml
+            o = load(xml)
+            acc.ev()
+            acc.transitions += 1
+            if len(v) >= 2:
+                acc.nt()
+            acc.cls("spelling:%s:%s" % (expect, o[0]))
+            acc.clause("spelling:" + clause)
+            acc.extra["spell_slot:" + slot] += 1
+            if expect in ("reject", "refuse"):
+                # how far from an acceptable value?  (one character too many, and where)
+                for i in range(len(v)):
+                    if judge(v[:i] + v[i + 1:], eff)[0] == "accept":
+                        acc.extra["spell_one_char_from_acceptable:" + _position_class(v, i)] += 1
+                        if v[i] in N.WHITESPACE:
+                            acc.extra["spell_acceptable_plus_whitespace:%s:%r" % (_position_class(v, i), v[i])] += 1
+                        break
+            case = {"document": "spelling", "xml": xml, "expect": expect, "slot": slot, "value": v, "place": place,
+                    "keytype": eff, "root": root_tag}
+            acc.sample(lambda: dict(case, outcome=o[0], clause=clause))
+            bad = judge_outcome(o, expect)
+            if bad:
+                acc.violation(bad, case, o, EXPECT_TEXT[expect],
+                              tags={"kind": bad, "axis": "spelling", "slot": slot, "place": place, "clause": clause,
+                                    "root": root_tag, "outcome": o[0]})
+    finally:
+        if Pk is not None:
+            Pk.close()
+    acc.traces = acc.transitions
+    return acc
+
+
+# ---------------------------------------------------------------------------
+# wave 3, axis X: the container context of axis K ACROSS FILES.  The earlier container(s) live in base schema
+# file(s) named by <schema extends="...">: the base's own items (which the extending schema inherits), a section
+# type of the base, one or two bases in both listing orders, a base that itself extends a base; every file's
+# <schema> carries its own key type (absent / basic-key / identifier), and so does every section type.  The
+# reference judges every container under ITS OWN effective key type: the extending schema's is its keytype= when
+# present, else the bases' common one (docs: conflicting bases need an explicit keytype); inherited entries count.
+
+XMAIN = "file:///v/schema.xml"
+_MEMLOADER = []
+
+
+def xurl(i):
+    return "file:///v/base%d.xml" % i
+
+
+def observe_files(files, main=XMAIN):
+    """Load `main` through a SchemaLoader whose public openResource serves the file:///v/ URLs of `files`."""
+    import ZConfig
+    import ZConfig.loader
+    if not _MEMLOADER:
+        class MemSchemaLoader(ZConfig.loader.SchemaLoader):
+            files = {}
+
+            def openResource(self, url):
+                url = str(url)
+                if url in self.files:
+                    return self.createResource(io.StringIO(self.files[url]), url)
+                raise ZConfig.SchemaResourceError("no such resource", filename=url)
+        _MEMLOADER.append(MemSchemaLoader)
+    try:
+        ld = _MEMLOADER[0]()
+        ld.files = files
+        ld.loadFile(io.StringIO(files[main]), main)
+        return ("accepted",)
+    except ZConfig.SchemaError as e:
+        return ("schema-error", str(e)[:120])
+    except ZConfig.ConfigurationError as e:
+        return ("other-config-error", type(e).__name__, str(e)[:120])
+    except Exception as e:
+        return ("internal", core.exc_desc(e))
+
+
+def x_files(bases, main, listing, chain=False):
+    """bases: list of container lists (base1, base2, ...); main: container list; listing: order of the base
+    numbers in the extends attribute.  chain: base1 itself extends base2 (then listing is (1,))."""
+    files = {}
+    for i, conts in enumerate(bases, 1):
+        ext = ' extends="base%d.xml"' % (i + 1) if chain and i < len(bases) else ""
+        files[xurl(i)] = ctx_document(conts, schema_attrs=ext, leaf=(i == len(bases) if chain else i == 1))
+    files[XMAIN] = ctx_document(main, schema_attrs=' extends="%s"' % " ".join("base%d.xml" % i for i in listing),
+                                leaf=False)
+    return files
+
+
+def _top_of(conts):
+    for i, c in enumerate(conts):
+        if c[0] == "top":
+            return i
+    return None
+
+
+def x_judge(bases, main, chain=False):
+    """-> (verdict, clause, own verdict of the extending schema's top container, its effective key type,
+    the bases' effective key types, its items, the merged inherited entries)."""
+    worst = []
+
+    def note(v, clause):
+        worst.append((v, clause))
+
+    def merge(merged, entries):
+        names = {n: cls for cls, n, a in merged}
+        attrs = {a for cls, n, a in merged}
+        for cls, n, a in entries:
+            if n in names:
+                note(("reject", "duplicate-name-across-files") if names[n] == cls else
+                     ("unspecified", "key-and-section-share-a-name"))
+            if a in attrs:
+                note("reject", "duplicate-attribute-across-files")
+            names.setdefault(n, cls)
+            attrs.add(a)
+            merged.append((cls, n, a))
+
+    def conflict_free(effs):
+        return len(set(effs)) == 1
+
+    def judge_file(conts, inherited, base_effs):
+        """One file whose top container inherits `inherited` from files with key types `base_effs`."""
+        ti = _top_of(conts)
+        top_eff, top_entries, own = None, list(inherited), None
+        for i, (place, letter, kt, spec, ext) in enumerate(conts):
+            items = ctx_ref_items(spec, letter)
+            if i != ti:
+                v = R.judge_container(kt or "basic-key", items)
+                if v[0] != "accept":
+                    note(v[0], v[1])
+                continue
+            if kt:
+                top_eff = kt
+            elif not base_effs:
+                top_eff = "basic-key"
+            elif conflict_free(base_effs):
+                top_eff = base_effs[0]
+            else:
+                note("reject", "conflicting-base-keytypes-and-no-own-keytype")
+                top_eff = base_effs[0]
+            v = R.judge_container(top_eff, items, inherited=inherited, explicit_keytype=kt if inherited else None)
+            own = v
+            if v[0] != "accept":
+                note(v[0], v[1])
+            top_entries = v[2]
+        if ti is None:
+            top_eff = base_effs[0] if base_effs and conflict_free(base_effs) else "basic-key"
+        return top_eff, top_entries, own
+
+    if chain:
+        inherited, effs = [], []
+        for conts in reversed(bases):
+            eff, inherited, _ = judge_file(conts, inherited, effs)
+            effs = [eff]
+        base_effs = effs
+    else:
+        inherited, base_effs = [], []
+        for conts in bases:
+            eff, entries, _ = judge_file(conts, [], [])
+            merge(inherited, entries)
+            base_effs.append(eff)
+    eff, _, own = judge_file(main, inherited, base_effs)
+    ti = _top_of(main)
+    items = ctx_ref_items(main[ti][3], main[ti][1]) if ti is not None else []
+    for want in ("reject", "unspecified"):
+        for v, clause in worst:
+            if v == want:
+                return want, clause, own, eff, base_effs, items, inherited
+    return "accept", "every-container-acceptable-under-its-own-keytype", own, eff, base_effs, items, inherited
+
+
+X_HIST5 = ((),) + tuple((("key", s, False),) for s in SPELLINGS)
+X_HIST2 = X_HIST5[:2]
+
+
+def x_layouts(tier):
+    """(layout id, tuple of key type renderings) - what each rendering stands for is fixed by the layout."""
+    quick = tier == "quick"
+    two = (None, "identifier")
+    own = (None, "basic-key", "identifier")
+    if not quick:
+        two = own = (None, "basic-key", "identifier", R.LOWER_KEY)
+    for ks in two:
+        for kb in own:
+            yield "base-items>own-items", (ks, kb)
+    for ka in two:
+        for ks in two:
+            for kb in own:
+                yield "base-type>own-items", (ka, ks, kb)
+    for ks in two:
+        for kb in two:
+            for ke in own:
+                yield "base-items>own-type", (ks, kb, ke)
+    for k1 in ((None, "identifier") if quick else (None, "basic-key", "identifier")):
+        for k2 in ((None, "identifier") if quick else (None, "basic-key", "identifier")):
+            for kb in ((None, "basic-key", "identifier")):
+                for listing in ((1, 2), (2, 1)):
+                    yield "two-bases>own-items", (k1, k2, kb, listing)
+                yield "base-chain>own-items", (k1, k2, kb)
+
+
+def x_shards(tier):
+    nchunk = 3 if tier == "quick" else 6
+    return [("xfile", tier, lay, kts, ch, nchunk) for lay, kts in x_layouts(tier) for ch in range(nchunk)]
+
+
+def x_cases(lay, kts, hist25, hist5, hist2, b_specs):
+    """-> (bases, main, listing, chain) for every history x every spec of the container under test."""
+    if lay == "base-items>own-items":
+        ks, kb = kts
+        for h in hist25:
+            for b in b_specs:
+                yield [[("top", "a", ks, h, None)]], [("top", "b", kb, b, None)], (1,), False
+    elif lay == "base-type>own-items":
+        ka, ks, kb = kts
+        for h in hist5:
+            for b in b_specs:
+                yield [[("type", "a", ka, h, None), ("top", "t", ks, (), None)]], [("top", "b", kb, b, None)], (1,), False
+    elif lay == "base-items>own-type":
+        ks, kb, ke = kts
+        for h in hist5:
+            for b in b_specs:
+                yield [[("top", "a", ks, h, None)]], [("type", "b", kb, b, None), ("top", "t", ke, (), None)], (1,), False
+    elif lay == "two-bases>own-items":
+        k1, k2, kb, listing = kts
+        for h in hist2:
+            for b in b_specs:
+                yield [[("top", "a", k1, h, None)], [("top", "m", k2, (), None)]], [("top", "b", kb, b, None)], listing, False
+    elif lay == "base-chain>own-items":
+        k1, k2, kb = kts
+        for h in hist2:
+            for b in b_specs:
+                yield [[("top", "a", k1, (), None)], [("top", "m", k2, h, None)]], [("top", "b", kb, b, None)], (1,), True
+    else:
+        raise ValueError(lay)
+
+
+def explore_xfile(arg, acc):
+    _, tier, lay, kts, ch, nchunk = arg
+    hist25 = ctx_specs(1, True)
+    b_specs = ctx_specs(2, tier != "quick")[ch::nchunk]
+    hist2 = X_HIST2 if tier == "quick" else X_HIST5
+    for bases, main, listing, chain in x_cases(lay, kts, hist25, X_HIST5, hist2, b_specs):
+        files = x_files(bases, main, listing, chain)
+        v, clause, own, eff, base_effs, items, inherited = x_judge(bases, main, chain)
+        acc.current = files
+        o = observe_files(files)
+        acc.ev()
+        acc.transitions += 1
+        acc.nt()
+        expect = VERDICT_EXPECT[v]
+        acc.cls("cross-file:%s:%s" % (expect, o[0]))
+        acc.clause("cross-file:" + clause)
+        acc.extra["xfile_layout:" + lay] += 1
+        if own is not None and own[0] in ("accept", "reject"):
+            # would the extending schema's own items be judged differently under a base's key type?
+            if any(e != eff and R.judge_container(e, items, inherited=inherited)[0] != own[0] for e in base_effs):
+                acc.extra["xfile_verdict_depends_on_whose_keytype:" + own[0]] += 1
+        case = {"document": "cross-file", "files": files, "main": XMAIN, "expect": expect, "layout": lay,
+                "keytypes": [k if isinstance(k, (str, type(None))) else list(k) for k in kts]}
+        acc.sample(lambda: dict(case, outcome=o[0], clause=clause))
+        bad = judge_outcome(o, expect)
+        if bad:
+            acc.violation(bad, case, o, EXPECT_TEXT[expect],
+                          tags={"kind": bad, "axis": "cross-file", "layout": lay, "clause": clause, "outcome": o[0]})
+    acc.traces = acc.transitions
+    return acc
+
+
+
 def shard(arg, acc):
     kind = arg[0]
     if kind == "schema":
@@ -950,6 +1284,10 @@ def shard(arg, acc):
         explore_text(name, xml, acc, tier)
     elif kind == "ctx":
         explore_ctx(arg, acc)
+    elif kind == "spell":
+        explore_spelling(arg, acc)
+    elif kind == "xfile":
+        explore_xfile(arg, acc)
     else:
         _, tier = arg
         P = pkgs.Packages()
@@ -992,6 +1330,9 @@ def run(tier):
     ndocs = nesting_documents(docs, tier)
     tdocs = text_documents(docs, tier)
     cshards = ctx_shards(tier)
+    sshards = spell_shards(tier)
+    xshards = x_shards(tier)
+    SP = spell_params(tier)
     quick = tier == "quick"
     run = core.Run(
         "C10", tier, "model_checking",
@@ -1015,8 +1356,27 @@ def run(tier):
              "document is accepted iff every container is; where the reference is silent (a key and a section sharing a "
              "name) the differential relation 'acceptable iff each container alone is acceptable' decides; every "
              "single-container document is loaded again after all the others.  "
+             "(5) spelling: for each of %d slots (element x name-bearing attribute: name of key / multikey / section / "
+             "multisection with and without an explicit attribute, key= of a <default>, name of sectiontype / abstracttype, "
+             "attribute, handler, required, datatype, keytype, type / extends / implements references, prefix on schema / "
+             "type / type inside a prefixed schema) in every container position (the schema's own items, a section type, a "
+             "derived section type inheriting its key type%s) and, where the key type matters, under each key type of %s, the "
+             "value runs over EVERY string of <= %d characters over %s and over a well-formed stem with every string of <= %d "
+             "characters inserted at every position; white space is written as character references so that it reaches the "
+             "parser; the verdict comes from the documented type of the attribute (basic-key, identifier, dotted-name, yes|no, "
+             "documented stock datatype names) matched against the WHOLE value: malformed => SchemaError (a malformed key= of "
+             "a <default>: any ConfigurationError at load time), well formed => accepted, non-ASCII identifiers / empty "
+             "attribute= or prefix= / relative prefix on a type without outer prefix => accepted-or-SchemaError; dotted "
+             "datatype names are not generated.  "
+             "(6) cross-file context: the container context of (4) with the earlier container(s) in base schema file(s) named by "
+             "<schema extends=...>: layouts %s; every <schema> and every section type has its own key type out of %s; base "
+             "containers hold <= 1 item (any of the 24 for inherited items, a key in each spelling for a base's section type / "
+             "the base of an extending section type%s), the container under test <= 2 (%s); the extending schema's own items are judged under "
+             "its keytype= when present, else the bases' common key type (conflicting bases without an own keytype => "
+             "SchemaError), with the bases' items as inherited entries.  "
              "states = base documents, transitions = documents loaded.  Non-trivial = edit site below schema top level "
-             "(inside a section type, a derived type or the component) / a container preceded by a non-empty one."
+             "(inside a section type, a derived type or the component) / a container preceded by a non-empty one / a spelled "
+             "value of >= 2 characters / every cross-file document."
              % (len(docs), len(VIOLATING), "" if quick else ", and every pair of violating edits at unrelated elements",
                 len(PRESERVING), len(ndocs) + 1,
                 " (last position)" if quick else " (first and last position, with and without stray text inside it)",
@@ -1028,7 +1388,12 @@ def run(tier):
                 "{default, explicit basic-key, identifier, a case-folding dotted-name key type}; also as a component",
                 "ordered for two sibling types, unordered for a derived type and next to the schema's own items" if quick
                 else "ordered",
-                list(SPELLINGS)),
+                list(SPELLINGS),
+                len(N.SLOTS), "" if quick else "; also inside a component imported by a schema",
+                [k or "default" for k in SP["keytypes"]], SP["bare"], [c for c in SP["alphabet"]], SP["ins"],
+                sorted(set(l for l, _ in x_layouts(tier))),
+                "{absent, basic-key, identifier}" if quick else "{absent, basic-key, identifier, a case-folding dotted-name key type}",
+                ", none or one key with two bases / a chain of bases" if quick else "", "unordered" if quick else "ordered"),
         bounds={"documents": len(docs) + 1, "violating_operators": [o[0] for o in VIOLATING],
                 "preserving_operators": [o[0] for o in PRESERVING], "pairs": tier != "quick",
                 "nesting_documents": [n for n, _ in ndocs] + ["component"] if quick else len(ndocs) + 1,
@@ -1037,7 +1402,13 @@ def run(tier):
                 "context_item_alphabet": len(CTX_ITEMS), "context_spellings": list(SPELLINGS),
                 "context_layouts": sorted(set("%s/%s" % ("+".join(p for p, _, _ in lay), "extends" if lay[-1][2] else "sibling")
                                               for lay, _, _, _ in ctx_combos(tier))),
-                "context_keytype_combinations": len(list(ctx_combos(tier))), "context_shards": len(cshards)},
+                "context_keytype_combinations": len(list(ctx_combos(tier))), "context_shards": len(cshards),
+                "spelling_slots": sorted(N.SLOTS), "spelling_places": list(N.PLACES) + ([] if quick else ["component"]),
+                "spelling_alphabet": [c for c in SP["alphabet"]], "spelling_max_length": SP["bare"],
+                "spelling_stem_insertions_max_length": SP["ins"],
+                "spelling_keytypes": [k or "default" for k in SP["keytypes"]], "spelling_shards": len(sshards),
+                "cross_file_layouts": sorted(set(l for l, _ in x_layouts(tier))),
+                "cross_file_keytype_combinations": len(list(x_layouts(tier))), "cross_file_shards": len(xshards)},
         assumptions=["each violating operator breaks a rule of the statement by construction at the site it is applied to",
                      "not generated (unspecified): <default> elements inside a plain <key>, required with <default> "
                      "elements on multikey / wildcard, malformed XML, a second <description> (cardinality is not "
@@ -1046,11 +1417,15 @@ def run(tier):
                      "the DTD content model (docs/schema.dtd) is the reference for nesting; order and cardinality of "
                      "children are not 'nesting'; metadefault in schema / section / multisection and import in "
                      "component are left open (DTD and parser table disagree, shipped components use the latter)",
+                     "spelling axis: every pattern of the documentation is read as matching the whole value; whether "
+                     "'identifier' admits non-ASCII Python identifiers is open (DESIGN C09); a malformed key= of a "
+                     "<default> must be refused at load time but the error class is not asserted",
                      "a key and a section sharing one normalised name in a container: not decided by the statement "
                      "(checked differentially); a derived type changing the key type over inherited names that are not "
                      "fixed points of it: unspecified (DESIGN C11)"])
     shards = [("schema", n, x, tier) for n, x in docs] + [("component", tier)] + \
-             [("nest", n, x, tier) for n, x in ndocs] + [("text", n, x, tier) for n, x in tdocs] + cshards
+             [("nest", n, x, tier) for n, x in ndocs] + [("text", n, x, tier) for n, x in tdocs] + cshards + \
+             xshards + sshards
     core.pmap(shard, shards, run.acc, shard_budget=3000.0)
     a = run.acc
     missing = [o[0] for o in VIOLATING if not a.clauses.get(o[0])]
@@ -1071,6 +1446,25 @@ def run(tier):
     run.require(a.classes.get("context:accept:accepted", 0) > 10000 and a.classes.get("context:reject:schema-error", 0) > 10000,
                 "container context: few decided documents")
     run.require(a.extra.get("ctx_reloads_after_other_documents", 0) > 1000, "container context: few reloads")
+    # wave 3 guards
+    unused = [sl for sl in N.SLOTS if a.extra.get("spell_slot:" + sl, 0) < 100]
+    run.require(not unused, "spelling: slots hardly exercised: %s" % unused)
+    run.require(a.classes.get("spelling:accept:accepted", 0) > 1000 and a.classes.get("spelling:reject:schema-error", 0) > 10000,
+                "spelling: few decided values")
+    for pos in ("first", "middle", "last"):
+        run.require(a.extra.get("spell_one_char_from_acceptable:" + pos, 0) > 300,
+                    "spelling: few refused values that are one %s character away from an acceptable one" % pos)
+        for c in ("\n", " ", "\t", "\r"):
+            run.require(a.extra.get("spell_acceptable_plus_whitespace:%s:%r" % (pos, c), 0) > 30,
+                        "spelling: few acceptable values with an extra %r as %s character" % (c, pos))
+    run.require(a.extra.get("xfile_verdict_depends_on_whose_keytype:accept", 0) > 1000 and
+                a.extra.get("xfile_verdict_depends_on_whose_keytype:reject", 0) > 1000,
+                "cross-file context: few extending schemas whose own items would be judged differently under a base "
+                "schema's key type")
+    run.require(a.classes.get("cross-file:accept:accepted", 0) > 5000 and a.classes.get("cross-file:reject:schema-error", 0) > 5000,
+                "cross-file context: few decided documents")
+    run.require(a.clauses.get("cross-file:conflicting-base-keytypes-and-no-own-keytype", 0) > 100,
+                "cross-file context: few conflicting base key types")
     return run
 
 
@@ -1078,8 +1472,15 @@ def replay(body):
     case = body["case"]
     rc = 0
     for _ in range(2):
-        doc = case.get("edited") or case["xml"]
-        o = observe(doc)
+        if case.get("files"):
+            for u in sorted(case["files"]):
+                print("---", u)
+                print(case["files"][u])
+            o = observe_files(case["files"], case.get("main", XMAIN))
+            doc = ""
+        else:
+            doc = case.get("edited") or case["xml"]
+            o = observe(doc)
         print(doc)
         print("observed:", o, " expected:", body["expected"])
         exp = case.get("expect")
